@@ -222,8 +222,20 @@ def run_shard(ctx):
             a, b = rng.sample(gd["nodes"], 2)
             rest = [x for x in gd["nodes"] if x not in (a, b)]
             C = rng.sample(rest, rng.randint(0, len(rest)))
+            if rng.random() < 0.2:
+                C = C + [rng.choice((a, b))]  # "all C": also one that holds an end node (only symmetry is judged then)
             query(ctx, g, gd, a, b, sorted(C), gkey)
     ctx.extras["cyclic_graphs"] = ncyc
+    # symmetry with an end node (or both) in the conditioning set, on acyclic graphs too
+    for _ in range(ctx.share({"quick": 400, "thorough": 8000}[ctx.tier])):
+        gd = gg.random_admg(rng, rng.randint(2, 5)) if rng.random() < 0.5 else random_cyclic(rng, rng.randint(2, 4))
+        g = gg.to_nx(gd)
+        gkey = gg.key(gd)
+        for _q in range(3):
+            a, b = rng.sample(gd["nodes"], 2)
+            rest = [x for x in gd["nodes"] if x not in (a, b)]
+            C = rng.sample(rest, rng.randint(0, len(rest))) + rng.choice(([a], [b], [a, b]))
+            query(ctx, g, gd, a, b, sorted(C), gkey)
 
 
 def replay(case):
